@@ -8,3 +8,20 @@ pub broadcast axiom fn array_ref_u8_eq_spec<'a, 'b, const N: usize>(a: &'a [u8; 
     ensures
         #[trigger] <&'a [u8; N] as PartialEqSpec<&'b [u8; N]>>::obeys_eq_spec(),
         #[trigger] PartialEqSpec::eq_spec(&a, &b) == (a@ == b@);
+// TRUSTED (core): `<[u8; N]>::try_from(&[u8])` (reached through `.try_into()`) succeeds iff the slice has N elements and copies them
+#[verifier::external_type_specification]
+#[verifier::external_body]
+pub struct ExTryFromSliceError(core::array::TryFromSliceError);
+pub broadcast axiom fn axiom_array_try_from_slice_obeys<'a, const N: usize>()
+    ensures #[trigger] <&'a [u8] as vstd::std_specs::convert::TryIntoSpec<[u8; N]>>::obeys_try_into_spec();
+pub broadcast axiom fn axiom_array_try_from_slice<'a, const N: usize>(s: &'a [u8])
+    ensures
+        (#[trigger] <&'a [u8] as vstd::std_specs::convert::TryIntoSpec<[u8; N]>>::try_into_spec(s)) is Ok <==> s@.len() == N,
+        s@.len() == N ==> (<&'a [u8] as vstd::std_specs::convert::TryIntoSpec<[u8; N]>>::try_into_spec(s))->Ok_0@ == s@;
+// same for the borrowing conversion `<&[u8; N]>::try_from(&[u8])`
+pub broadcast axiom fn axiom_array_ref_try_from_slice_obeys<'a, const N: usize>()
+    ensures #[trigger] <&'a [u8] as vstd::std_specs::convert::TryIntoSpec<&'a [u8; N]>>::obeys_try_into_spec();
+pub broadcast axiom fn axiom_array_ref_try_from_slice<'a, const N: usize>(s: &'a [u8])
+    ensures
+        (#[trigger] <&'a [u8] as vstd::std_specs::convert::TryIntoSpec<&'a [u8; N]>>::try_into_spec(s)) is Ok <==> s@.len() == N,
+        s@.len() == N ==> (<&'a [u8] as vstd::std_specs::convert::TryIntoSpec<&'a [u8; N]>>::try_into_spec(s))->Ok_0@ == s@;
